@@ -7,6 +7,8 @@ World: THREADS.  Real Scheduler.run on a controlled thread, both hub modes,
 engine decides at every traced line and every blocking primitive who runs.
 """
 
+import gc
+
 from simkit import sim as S
 from simkit.rng import Rng, mix
 from simkit.check import load_known
@@ -139,6 +141,7 @@ def gen_plan(seed, tier):
                      r.randrange(nl)])
       steps.append({"task": i, "prog": prog})
     cfg["nlocks"] = nl
+    cfg["w4_gc"] = Rng(mix(seed, "w4gc")).chance(0.5)
   return {"prop": PROP, "seed": seed, "cfg": cfg, "steps": steps}
 
 
@@ -760,6 +763,10 @@ def _w4(sim, world, eng, plan):
       held = set()
       for op, li in self_.prog:
         L = locks[li]
+        if cfg.get("w4_gc"):
+          # the tasks are fire-and-forget (nobody but the scheduler and the
+          # locks refers to them): a collection must not take any of them
+          gc.collect()
         if op == "acq":
           if li in held:
             continue              # would self-deadlock: not a lock bug
@@ -827,7 +834,9 @@ def _w4(sim, world, eng, plan):
     # is held by a task that is itself blocked (a lock-order deadlock made
     # by the generated programs), never if the lock is free
     for i, L in enumerate(locks):
-      if L._waiting and not L._locked:
+      if (L._waiting or waiting[i] > 0) and not L._locked:
+        # (by the lock's own books, or by the model's: a waiter the lock
+        # has forgotten about is as stranded as one it still lists)
         raise Violation("w4/waiter-stranded", "lock %d is free but %d "
-                        "task(s) are still blocked on it" % (i,
-                                                             len(L._waiting)))
+                        "task(s) are still blocked on it"
+                        % (i, max(len(L._waiting), waiting[i])))
